@@ -71,6 +71,45 @@ func (a *setA) versionSchema(s, v int, svcName string, strictHits *int64, mu *sy
 type naming struct {
 	svc []string
 	ver [][]string
+	// order != 0: every list of every introspection result (types, fields, args,
+	// inputFields, enumValues, possibleTypes) is shuffled with a seed derived
+	// from (order, service, version). The lists are sets; thunder's own
+	// introspection happens to sort them, other producers (stored JSON, other
+	// servers, a custom SchemaSyncer) do not.
+	order int64
+}
+
+var listKeys = map[string]bool{"types": true, "fields": true, "args": true, "inputFields": true, "enumValues": true, "possibleTypes": true, "interfaces": true, "directives": true}
+
+func shuffleLists(v interface{}, r *rand.Rand) {
+	switch x := v.(type) {
+	case map[string]interface{}:
+		keys := make([]string, 0, len(x))
+		for k := range x {
+			keys = append(keys, k)
+		}
+		sort.Strings(keys)
+		for _, k := range keys {
+			if l, ok := x[k].([]interface{}); ok && listKeys[k] {
+				r.Shuffle(len(l), func(i, j int) { l[i], l[j] = l[j], l[i] })
+			}
+			shuffleLists(x[k], r)
+		}
+	case []interface{}:
+		for _, e := range x {
+			shuffleLists(e, r)
+		}
+	}
+}
+
+// permuteIntrospection returns the same introspection result with every list reordered.
+func permuteIntrospection(b []byte, seed int64) ([]byte, error) {
+	var doc interface{}
+	if err := json.Unmarshal(b, &doc); err != nil {
+		return nil, err
+	}
+	shuffleLists(doc, rand.New(rand.NewSource(seed)))
+	return json.Marshal(doc)
 }
 
 var svcNamePool = []string{"alpha", "beta", "gamma", "Zed", "svc1", "svc10", "svc2", "a", "b", "core", "users", "Billing", "x9", "m"}
@@ -115,6 +154,9 @@ func reversedNaming(base naming) naming {
 
 func (n naming) String() string {
 	var parts []string
+	if n.order != 0 {
+		parts = append(parts, fmt.Sprintf("lists-shuffled(seed %d)", n.order))
+	}
 	for s := range n.svc {
 		parts = append(parts, fmt.Sprintf("%s%q", n.svc[s], n.ver[s]))
 	}
@@ -149,6 +191,11 @@ func build(set schemaSet, n naming) (map[string]map[string]*federation.Introspec
 			b, err := set.jsonFor(s, v, n.svc[s])
 			if err != nil {
 				return nil, err
+			}
+			if n.order != 0 {
+				if b, err = permuteIntrospection(b, n.order*1000003+int64(s)*101+int64(v)); err != nil {
+					return nil, err
+				}
 			}
 			iq, err := toIQR(b)
 			if err != nil {
@@ -326,22 +373,25 @@ func dropIntrospectionTypes(d *schemaDef) {
 
 func firstDiff(a, b string) string {
 	la, lb := strings.Split(a, "\n"), strings.Split(b, "\n")
-	sa := map[string]bool{}
+	ca := map[string]int{}
 	for _, l := range la {
-		sa[l] = true
+		ca[l]++
 	}
-	sb := map[string]bool{}
+	cb := map[string]int{}
 	for _, l := range lb {
-		sb[l] = true
+		cb[l]++
 	}
 	var out []string
-	for _, l := range la {
-		if !sb[l] {
+	seen := map[string]bool{}
+	for _, l := range append(append([]string(nil), la...), lb...) {
+		if seen[l] {
+			continue
+		}
+		seen[l] = true
+		for k := cb[l]; k < ca[l]; k++ {
 			out = append(out, "- "+l)
 		}
-	}
-	for _, l := range lb {
-		if !sa[l] {
+		for k := ca[l]; k < cb[l]; k++ {
 			out = append(out, "+ "+l)
 		}
 	}
@@ -621,7 +671,8 @@ func TestCheck(t *testing.T) {
 		"list/non-null nestings, distributed over services following thunder's federation conventions (_federation field, Federation.<svc>_<Obj>(keys)); per-service views of shared enums/input objects may lack a value/optional field; " +
 		"versions = base view + 0-3 mutations (add/remove field, arg (optional/required), enum value, union member, input field; flip nullability of outputs/args/input fields at any nesting level; wrap/unwrap list; change scalar), unreachable types pruned. " +
 		"Generator B (real, 20%): schemabuilder services built from feature bitmasks (registered field funcs, arg structs, enum maps, union members, pointer vs value returns), JSON from introspection.ComputeSchemaJSON, real arg parsers. " +
-		"Each set is evaluated under its base naming, the order-reversing naming and 2 random namings (MergeIntrospectionSchemas + ConvertVersionedSchemas), compared with a set-semantics reference merge, checked for closure, " +
+		"About 15% of generator-A sets also contain a type NAME with different KINDS on two sides (custom scalar vs enum/input/object/union across services, or across versions of one service) that no common field refers to; these must be rejected under every naming. " +
+		"Each set is evaluated under its base naming, the order-reversing naming, 2 random namings whose introspection lists (types, fields, args, inputFields, enumValues, possibleTypes) are shuffled per schema, and the base naming with shuffled lists (MergeIntrospectionSchemas + ConvertVersionedSchemas), compared with a set-semantics reference merge, checked for closure, " +
 		"and queries generated from the merged introspection only are executed through federation.Executor with fabricating clients; every recorded sub-query is PrepareQuery'd against every version's own schema of the receiving service. " +
 		"Non-trivial = >=2 services AND >=1 multi-version service AND merge succeeded AND >=1 element on which the sides differ (dropped by intersection, contributed by one service only inside a shared field/type, or nullability disagreement). " +
 		"Distinct = (versions per service, kinds of differences with multiplicity capped at 2, generator, number of services reached by queries).")
@@ -655,7 +706,13 @@ func runCase(run *vlib.Run, i, nSets, nQueries int) {
 	counts := set.counts()
 	rn := run.Rand("naming", i)
 	base := randomNaming(rn, counts)
-	namings := []naming{base, reversedNaming(base), randomNaming(rn, counts), randomNaming(rn, counts)}
+	namings := []naming{base, reversedNaming(base), randomNaming(rn, counts), randomNaming(rn, counts), base}
+	// the two random namings also get their lists shuffled; the last evaluation keeps
+	// the base names and only reorders the lists inside the introspection results
+	ro := run.Rand("order", i)
+	for k := 2; k < len(namings); k++ {
+		namings[k].order = 1 + ro.Int63n(1<<40)
+	}
 	if set.kind() == "B" {
 		// schemabuilder lower-cases the service name it puts into Federation field names
 		for k := range namings {
@@ -726,34 +783,38 @@ func runCase(run *vlib.Run, i, nSets, nQueries int) {
 	orderDependent := anyFail && anyOK
 	for k, o := range outs[1:] {
 		n := namings[k+1]
+		parityClass := classOrder
+		if k+1 == len(namings)-1 {
+			parityClass = "" // same names as the base: only the order inside the lists differs
+		}
 		switch {
 		case o.mergeOK != b.mergeOK:
-			viol(run, i, "merge_parity", classOrder, wit(map[string]interface{}{
-				"what":   "MergeIntrospectionSchemas succeeds under one naming of the services/versions and fails under another",
+			viol(run, i, "merge_parity", parityClass, wit(map[string]interface{}{
+				"what":   "MergeIntrospectionSchemas succeeds under one naming of the services/versions / ordering of the lists in the introspection results and fails under another",
 				"other":  n.String(),
 				"base":   map[string]interface{}{"ok": b.mergeOK, "err": b.mergeErr},
 				"second": map[string]interface{}{"ok": o.mergeOK, "err": o.mergeErr},
 			}))
 		case o.mergeOK && o.merged != b.merged:
 			viol(run, i, "merge_result", "", wit(map[string]interface{}{
-				"what": "merged schema differs under renaming", "other": n.String(), "diff": firstDiff(b.merged, o.merged),
+				"what": "merged schema differs under renaming of services/versions or reordering of the lists (fields, args, enumValues, possibleTypes ...) inside the introspection results (- base, + other)", "other": n.String(), "diff": firstDiff(b.merged, o.merged),
 			}))
 		}
 		switch {
 		case o.convOK != b.convOK:
 			cls := ""
-			if orderDependent {
+			if orderDependent && parityClass != "" {
 				cls = classOrder
 			}
 			viol(run, i, "convert_parity", cls, wit(map[string]interface{}{
-				"what":   "ConvertVersionedSchemas succeeds under one naming and fails under another",
+				"what":   "ConvertVersionedSchemas succeeds under one naming / list ordering and fails under another",
 				"other":  n.String(),
 				"base":   map[string]interface{}{"ok": b.convOK, "err": b.convErr},
 				"second": map[string]interface{}{"ok": o.convOK, "err": o.convErr},
 			}))
 		case o.convOK && o.conv != b.conv:
 			viol(run, i, "convert_result", "", wit(map[string]interface{}{
-				"what": "converted schema / field-to-service map differs under renaming", "other": n.String(), "diff": firstDiff(b.conv, o.conv),
+				"what": "converted schema / field-to-service map differs under renaming or list reordering (- base, + other)", "other": n.String(), "diff": firstDiff(b.conv, o.conv),
 			}))
 		}
 	}
